@@ -474,6 +474,11 @@ def run_main(pid, tier, seed, replay=None):
             raise vk.ToolError(f"the design model violates {r['violated']} in {r['cfg']}: the specification or the claim is wrong")
         r.pop("out")
         mc_res.append(dict(r, sensitivity=expect))
+    proofs = []
+    for pm in P.get("proofs", {}).get(tier, []):
+        pr = vk.run_proof(pm)
+        vk.log(f"[proof] {pm}: {pr['obligations_proved']} obligations proved by tlapm ({pr['wall']}s)")
+        proofs.append(pr)
 
     # ---- 2. real executions, validated against the trace spec
     jobs = []
@@ -661,6 +666,7 @@ def run_main(pid, tier, seed, replay=None):
         distinct_nontrivial=distinct["n"],
         rule=distinct["rule"],
         model_checking_runs=mc_res,
+        deductive_proofs=proofs,
         trace_lines=sum(r["lines"] for r in results),
         builds_ok=sum(r["stats"]["builds_ok"] for r in results),
         builds_failed=sum(r["stats"]["builds_err"] for r in results),
@@ -881,10 +887,23 @@ def mcn(tag, overrides=None, expect=False, timeout=900):
     return dict(module="NodeIds.tla", cfg="MC_NodeIds.cfg", tag=tag, overrides=overrides or {}, expect_violation=expect, timeout=timeout)
 
 
+def mcr(used, overrides=None):
+    """NodeIds.tla refines the unbounded NodeIdsProof.tla (proved with TLAPS) for this used set; its ASSUME is evaluated too"""
+    o = {"UsedC": "{" + ", ".join(str(u) for u in used) + "}"}
+    o.update(overrides or {})
+    return dict(module="NodeIdsRefine.tla", cfg="MC_NodeIdsRefine.cfg", tag="refines_proved_spec_used_" + ("_".join(str(u) for u in used) or "none"), overrides=o,
+                expect_violation=False, timeout=600, workers=4)
+
+
+def all_subsets(n):
+    return [[i for i in range(n) if m >> i & 1] for m in range(1 << n)]
+
+
 MAIN["C13"] = dict(
-    mc=dict(quick=[mcn("ids_2x3"), mcn("sens_non_atomic", {"Atomic": "FALSE", "MaxReq": "2"}, expect=True)],
+    mc=dict(quick=[mcn("ids_2x3"), mcn("sens_non_atomic", {"Atomic": "FALSE", "MaxReq": "2"}, expect=True)] + [mcr(u) for u in ([], [1, 4], [0, 1, 2], [5], [0, 2, 3, 5])],
             thorough=[mcn("ids_2x3"), mcn("ids_3x3", {"Threads": "{1, 2, 3}", "MaxReq": "3"}, timeout=900),
-                      mcn("sens_non_atomic", {"Atomic": "FALSE", "MaxReq": "2"}, expect=True)]),
+                      mcn("sens_non_atomic", {"Atomic": "FALSE", "MaxReq": "2"}, expect=True)] + [mcr(u) for u in all_subsets(6)]),
+    proofs=dict(quick=["NodeIdsProof.tla"], thorough=["NodeIdsProof.tla"]),
     traces=dict(quick=[dict(profile="parallel", jobs=6, count=30, threads=[2, 4, 8, 16, 3, 16])],
                 thorough=[dict(profile="parallel", jobs=12, count=400, threads=[2, 4, 8, 16, 3, 16])]),
     extra_jobs=dict(quick=[dict(name="schedules", kind="sched", module="TraceIds.tla", heap="6g", args=["nodeids", "--budget", "20000"])],
